@@ -432,6 +432,20 @@ def c15(binary, out, plans_file):
 def timeline(binary, out, script_file):
     """script: list of [duration_s, chronyd_mode]; samples the segment status every 100 ms."""
     script = json.load(open(script_file))
+    obstacle_until = None
+    if isinstance(script, dict):
+        # {"phases": [...], "obstacle_until_s": t}: until t the segment's directory is a regular file
+        # (a location that is provisioned late); a daemon may refuse to start on it
+        obstacle_until = script.get("obstacle_until_s")
+        script = script["phases"]
+    d = os.path.dirname(SHM)
+    if obstacle_until is not None:
+        try:
+            os.rmdir(d)
+        except OSError:
+            pass
+        with open(d, "w") as f:
+            f.write("not a directory\n")
     chronyd = FakeChronyd("absent")
     chronyd.start()
     p = subprocess.Popen([binary], stdout=subprocess.DEVNULL, stderr=subprocess.DEVNULL)
@@ -443,6 +457,10 @@ def timeline(binary, out, script_file):
         start = time.monotonic() - t0
         phases.append([round(start, 3), mode])
         while time.monotonic() - t0 < start + dur:
+            if obstacle_until is not None and time.monotonic() - t0 >= obstacle_until:
+                obstacle_until = None
+                os.unlink(d)
+                os.makedirs(d, exist_ok=True)
             b = read_segment()
             if b:
                 samples.append([round(time.monotonic() - t0, 3), struct.unpack_from("=i", b, 64)[0], struct.unpack_from("=q", b, 48)[0]])
@@ -451,7 +469,7 @@ def timeline(binary, out, script_file):
     final = read_segment()
     kill(p)
     chronyd.stop = True
-    json.dump({"phases": phases, "samples": samples, "daemon_alive_at_end": alive, "chronyd_requests": chronyd.requests, "final_segment": final.hex() if final else None, "file_size": os.path.getsize(SHM) if os.path.exists(SHM) else -1}, open(out, "w"))
+    json.dump({"phases": phases, "samples": samples, "daemon_alive_at_end": alive, "daemon_exit_code": p.returncode, "chronyd_requests": chronyd.requests, "final_segment": final.hex() if final else None, "file_size": os.path.getsize(SHM) if os.path.exists(SHM) else -1}, open(out, "w"))
 
 
 if __name__ == "__main__":
